@@ -655,4 +655,57 @@ theorem memo_by_group_kind_witness :
     targetsMemo byGroupKind d [] cs = [some ⟨111, 0, 0⟩, some ⟨111, 0, 0⟩] := by
   decide
 
+/-! ## the physical layout of the patch file (sixth wave)
+
+What `Run` hands to `ParseOperations` is what the process wrote, line for line, whatever the lengths
+of the lines (`readWhole`, = `os.ReadFile`); a line-wise reader with a token limit is the same reader
+exactly on the files all of whose lines are shorter than the limit, and on every other file it hands
+over a proper prefix: the line that does not fit and everything behind it - documents that are then
+neither validated nor applied - are missing. -/
+
+theorem readLines_prefix (limit : Nat) (ls : List Line) :
+    ∃ tail, ls = readLines limit ls ++ tail := by
+  induction ls with
+  | nil => exact ⟨[], rfl⟩
+  | cons l rest ih =>
+    obtain ⟨t, ht⟩ := ih
+    by_cases h : l.length < limit
+    · refine ⟨t, ?_⟩
+      simp only [readLines, h, if_true, List.cons_append]
+      exact congrArg (List.cons l) ht
+    · exact ⟨l :: rest, by simp [readLines, h]⟩
+
+/-- ∀ limits, ∀ files: the line-wise reader hands over what `Run` hands over iff no line reaches the limit. -/
+theorem line_reader_transparent_iff (limit : Nat) (ls : List Line) :
+    readLines limit ls = readWhole ls ↔ ∀ l ∈ ls, l.length < limit := by
+  unfold readWhole
+  induction ls with
+  | nil => simp [readLines]
+  | cons l rest ih =>
+    by_cases h : l.length < limit
+    · simp [readLines, h, ih]
+    · simp [readLines, h]
+
+/-- ∀ files: with a line that reaches the limit, the line-wise reader loses that line and all behind it. -/
+theorem line_reader_loses_the_tail (limit : Nat) (before rest : List Line) (long : Line)
+    (hb : ∀ l ∈ before, l.length < limit) (hl : limit ≤ long.length) :
+    readLines limit (before ++ long :: rest) = before ∧
+    readWhole (before ++ long :: rest) = before ++ long :: rest := by
+  refine ⟨?_, rfl⟩
+  induction before with
+  | nil => simp [readLines, Nat.not_lt.mpr hl]
+  | cons l bs ih =>
+    have h1 : l.length < limit := hb l (List.mem_cons_self ..)
+    have h2 : ∀ x ∈ bs, x.length < limit := fun x hx => hb x (List.mem_cons_of_mem _ hx)
+    simp [readLines, h1, ih h2]
+
+/-- Non-vacuity / witness: three one-line documents, the second one longer than the buffer. -/
+theorem line_reader_witness :
+    readLines 4 [[1, 2], [1, 2, 3, 4, 5], [3]] = [[1, 2]] ∧
+    readWhole [[1, 2], [1, 2, 3, 4, 5], [3]] = [[1, 2], [1, 2, 3, 4, 5], [3]] ∧
+    readLines 4 [[1, 2], [1, 2, 3], [3]] = [[1, 2], [1, 2, 3], [3]] := by decide
+
+example : ∃ ls : List Line, (∀ l ∈ ls, l.length < 65536) ∧ ls ≠ [] ∧ readLines 65536 ls = readWhole ls :=
+  ⟨[[1], [2]], by decide, by decide, by decide⟩
+
 end ShellOp.Patch.C13
